@@ -683,7 +683,8 @@ type NewOptions struct {
 	// An advertisement may carry several route information, RDNSS and DNSSL options, each with its
 	// own lifetime (RFC 4191 2.3, RFC 8106 5.1/5.2): every well-formed one, in packet order.
 	// The single fields above keep their previous meaning (last route / last lifetime over all servers / last list).
-	Routes []RouteInformation
+	Routes    []RouteInformation
+	RDNSSList []RecursiveDNSServer
 }
 
 func newParseOptions(b []byte) (NewOptions, error) {
@@ -741,8 +742,11 @@ func newParseOptions(b []byte) (NewOptions, error) {
 				options.Routes = append(options.Routes, options.RouteInformation)
 			}
 		case optRDNSS:
+			n := len(options.RDNSS.Servers)
 			if err := options.RDNSS.unmarshal(b[i : i+l]); err != nil {
 				Logger.Msg("ignore invalid RDNSS option").Error(err).ByteArray("options", b).Write()
+			} else {
+				options.RDNSSList = append(options.RDNSSList, RecursiveDNSServer{Lifetime: options.RDNSS.Lifetime, Servers: options.RDNSS.Servers[n:]})
 			}
 		case optDNSSL:
 			if err := options.DNSSearchList.unmarshal(b[i : i+l]); err != nil {
